@@ -17,11 +17,11 @@ use std::thread;
 use std::time::Duration;
 use vcommon::*;
 
-fn genesis(same: bool) -> Hash {
+pub fn genesis(same: bool) -> Hash {
 	Hash::from_vec(&[if same { 0x11 } else { 0x22 }; 32])
 }
 
-fn msg_bytes<T: grin_core::ser::Writeable>(t: Type, m: T, v: u32) -> Vec<u8> {
+pub fn msg_bytes<T: grin_core::ser::Writeable>(t: Type, m: T, v: u32) -> Vec<u8> {
 	let msg = Msg::new(t, m, ProtocolVersion(v)).expect("serialise");
 	let mut out = vec![];
 	write_message(&mut out, &msg, Arc::new(Tracker::new())).expect("write");
@@ -36,7 +36,7 @@ fn write_split(s: &mut TcpStream, b: &[u8], at: usize) -> std::io::Result<()> {
 	s.write_all(&b[at..])
 }
 
-fn classify(r: &Result<grin_p2p::PeerInfo, Error>) -> Value {
+pub fn classify(r: &Result<grin_p2p::PeerInfo, Error>) -> Value {
 	match r {
 		Ok(pi) => json!({"res": "ok", "version": pi.version.value()}),
 		Err(Error::GenesisMismatch { .. }) => json!({"res": "genesis", "version": 0}),
